@@ -1,4 +1,7 @@
-(* C02 finding: Beam::walkoff_angle differentiates the index with math::derivative_at, whose step is RELATIVE, h = eps^(1/3) |theta|
+(* C02 finding F21 — FIXED in /repo f37b32c (walkoff_angle now uses the absolute step eps^(1/3)*0.05 below |theta| < 0.05 rad).
+   This file is the historical record of the defect on the code BEFORE that commit; the witness values below were produced by it.
+
+   Beam::walkoff_angle differentiated the index with math::derivative_at, whose step is RELATIVE, h = eps^(1/3) |theta|
    (src/math/differentiation.rs, gradient_at; an absolute step only at theta = 0 exactly).  For a small non-zero crystal angle and a
    TILTED beam — optic axis 12..90 deg from the beam, i.e. inside the property's domain — the step collapses (theta = 1e-6 rad:
    h = 6e-12 rad) and the rounding error of the two index values (about eps n k / h with k ~ 10..30 ulp of index error) swamps the
@@ -9,7 +12,7 @@
        Beam::walkoff_angle = 0.04189403826374288 rad,   closed form = 0.0434353185 rad.
 
    code_off_by_more_than_1e6      the returned value is > 1e-6 rad (in fact 1.5e-3) away from the closed form
-   exact_arithmetic_is_within_1e9 the SAME formula the code evaluates (generated walkoff_gen: central difference with the code's own
+   exact_arithmetic_is_within_1e9 the SAME formula the old code evaluated (walkoff_tail_gen of the generated derivative_at_gen: central difference with derivative_at's own
                                   step, Gen/Fresnel.v) evaluated in exact arithmetic on the same inputs is within 1e-9 rad of the
                                   closed form — the defect is binary64 rounding at a collapsed step, not the formula
                                   (in general: C02_walkoff_1e6_real).
@@ -35,9 +38,11 @@ Lemma code_off_by_more_than_1e6 :
 Proof. open_all. apply Rminus_gt_0_lt. interval with (i_prec 80). Qed.
 
 Lemma exact_arithmetic_is_within_1e9 :
-  Rabs (walkoff_gen (n_of w_no w_ne w_dx w_dz) w_theta - walkoff_uniaxial_general w_no w_ne (w_dx, 0, w_dz) w_theta) <= 1e-9.
+  Rabs (walkoff_tail_gen (derivative_at_gen (fun t => n_of w_no w_ne w_dx w_dz (walkoff_theta_assigned_gen t)) (walkoff_theta_at_gen w_theta))
+                         (n_of w_no w_ne w_dx w_dz w_theta)
+        - walkoff_uniaxial_general w_no w_ne (w_dx, 0, w_dz) w_theta) <= 1e-9.
 Proof.
-  unfold walkoff_gen, walkoff_tail_gen, walkoff_np_prime_gen, derivative_at_gen, fd_quotient_gen, fd_forward_point_gen,
+  unfold walkoff_tail_gen, derivative_at_gen, fd_quotient_gen, fd_forward_point_gen,
     fd_backward_point_gen, walkoff_theta_assigned_gen, walkoff_theta_at_gen, fd_step_gen, n_of, y_of, sz_of, eps64, Rpower.
   cbv zeta beta. open_all.
   repeat match goal with
